@@ -4,7 +4,7 @@ import "fmt"
 
 // C05: data directives emit exactly their operand values.
 
-var c05Strings = []string{"", "a", "hello", "a;b", "x#y", "p,q", " lead", "trail ", "it's", "semi; colon, comma # hash", "[BX]", "MOV AX,1", "0x41"}
+var c05Strings = []string{"", "a", "hello", "a;b", "x#y", "p,q", " lead", "trail ", "it's", "semi; colon, comma # hash", "[BX]", "MOV AX,1", "0x41", "ロード", "é", "日本語 text; ok", "€"}
 
 func strItem(s string) DItem { return DItem{Kind: "str", Str: s, Text: goQuoteForNask(s)} }
 
@@ -82,6 +82,9 @@ func c05Program(r *Rand) *ProgCase {
 		func(i int) PStmt { return PStmt{K: "raw", Text: "[INSTRSET \"i486p\"]", Tag: "bracket"} },
 		func(i int) PStmt { return PStmt{K: "raw", Text: "[FILE \"a.nas\"]", Tag: "bracket"} },
 		func(i int) PStmt { return PStmt{K: "raw", Text: "[BITS 16]", Tag: "bracket"} },
+		func(i int) PStmt {
+			return PStmt{K: "raw", Text: Pick(r, []string{"[SECTION .text]", "[SECTION .data]", "[SECTION .bss]", "[OPTIMIZE 1]"}), Tag: "bracket"}
+		},
 		func(i int) PStmt { return PStmt{K: "raw", Text: "; only a comment", Tag: "comment"} },
 		func(i int) PStmt { return PStmt{K: "raw", Text: "", Tag: "blank"} },
 	}
